@@ -124,7 +124,7 @@ Qed.
 Definition w_env : env :=
   {| nsh := 2; sh := fun x => x mod 2; UB := [0; 1]; UH := [0; 1]; UT := []; inline := false |}.
 Definition w_b (x : N) : bcont := {| bver := x + 1; bacl := false; bpaths := [(x, 0)]; brssl := [] |}.
-Definition w_h (x : N) : hcont := {| hver := x + 10; htls := false; hpaths := [(0, x)] |}.
+Definition w_h (x : N) : hcont := {| hver := x + 10; htls := false; hpaths := [(0, x)]; halias := [] |}.
 Definition w_full2 : list op :=
   [OClear; OGlobal 0; OBackAcquire 0 (w_b 0); OBackAcquire 1 (w_b 1); OHostAcquire 0 (w_h 0); OHostAcquire 1 (w_h 1); ODefault None].
 Definition w_full1 : list op := [OClear; OGlobal 0; OBackAcquire 0 (w_b 0); OHostAcquire 0 (w_h 0); ODefault None].
@@ -149,11 +149,31 @@ Proof.
   rewrite forallb_forall in H2. specialize (H2 h Ih). rewrite Hh, Hr in H2. apply isSome_true. exact H2.
 Qed.
 
+(* a decidable form of [tracked] *)
+Definition opt_hcont_eqb (a b : option hcont) : bool :=
+  match a, b with Some x, Some y => hcont_eqb x y | None, None => true | _, _ => false end.
+Definition tracked_b (e : env) (c0 c : config) : bool :=
+  forallb (fun x => match b_items (c_b c) x, b_add (c_b c) x with
+                    | Some bc, None =>
+                      negb (needs_map bc) ||
+                      forallb (fun hp : N * N => opt_hcont_eqb (h_items (c_h c) (fst hp)) (h_items (c_h c0) (fst hp))) (bpaths bc)
+                    | _, _ => true end) (UB e).
+Lemma tracked_b_sound : forall e c0 c, dom e c -> tracked_b e c0 c = true -> tracked c0 c.
+Proof.
+  intros e c0 c [Db _] H x bc Hx Hn A hp Hp. unfold tracked_b in H.
+  assert (Ix : In x (UB e)) by (apply Db; left; congruence).
+  rewrite forallb_forall in H. specialize (H x Ix). rewrite Hx, A, Hn in H. cbn [negb orb] in H.
+  rewrite forallb_forall in H. specialize (H hp Hp). unfold opt_hcont_eqb in H.
+  destruct (h_items (c_h c) (fst hp)) as [a|]; destruct (h_items (c_h c0) (fst hp)) as [b|]; try discriminate; auto.
+  apply hcont_eqb_eq in H. congruence.
+Qed.
+
 Ltac solve_in := repeat (apply Forall_cons; [cbn; auto 10|]); apply Forall_nil.
 Ltac solve_wf D :=
   split; [first [apply shape_full; reflexivity | apply shape_partial; reflexivity]|];
   split; [solve_in|];
-  apply (ready_b_sound w_env); [apply dom_apply_ops; [solve_in|exact D]|vm_compute; reflexivity].
+  split; [apply (ready_b_sound w_env); [apply dom_apply_ops; [solve_in|exact D]|vm_compute; reflexivity]|
+         apply (tracked_b_sound w_env); [apply dom_apply_ops; [solve_in|exact D]|vm_compute; reflexivity]].
 
 Lemma w_wf1 : wf_batch w_env (i_cfg inst_empty) w_full2.
 Proof. solve_wf (dom_empty w_env). Qed.
@@ -173,6 +193,39 @@ Proof. solve_wf w_dom_s1. Qed.
 Example wf_hist_example :
   wf_hist w_env inst_empty [(w_full2, [])] /\ wf_batch w_env (i_cfg w_s1) w_part.
 Proof. exact (conj (conj w_wf1 (conj eq_refl I)) w_wf_part). Qed.
+
+(* A second world: host 0 with the paths / and /a on backend 0, which needs per path acls (maps);
+   the host answers to alias 100.  A partial sync renames the alias to 101: host and backend are
+   removed and built again, the backend with the very same content.  The batch follows the
+   protocol and the idpath map of the backend holds the new alias afterwards. *)
+Definition w_ba : bcont := {| bver := 1; bacl := true; bpaths := [(0, 0); (0, 1)]; brssl := [] |}.
+Definition w_ha (a : N) : hcont := {| hver := 10; htls := false; hpaths := [(0, 0); (1, 0)]; halias := [a] |}.
+Definition w_afull : list op := [OClear; OGlobal 0; OBackAcquire 0 w_ba; OHostAcquire 0 (w_ha 100); ODefault None].
+Definition w_apart : list op :=
+  [OTcpRemove []; OHostsRemove [0]; OBacksRemove [0]; OBackAcquire 0 w_ba; OHostAcquire 0 (w_ha 101)].
+Definition w_a1 : inst := fst (step_f w_env [] inst_empty w_afull).
+Definition w_a2 : inst := fst (step_f w_env [] w_a1 w_apart).
+Lemma w_awf1 : wf_batch w_env (i_cfg inst_empty) w_afull.
+Proof. solve_wf (dom_empty w_env). Qed.
+Lemma w_dom_a1 : dom w_env (i_cfg w_a1).
+Proof.
+  assert (R : reach w_env (fst (step_f w_env [] inst_empty w_afull))).
+  { exact (step_reach w_env [] inst_empty w_afull w_range (reach_empty w_env) w_awf1 eq_refl). }
+  unfold w_a1. apply R.
+Qed.
+Lemma w_awf2 : wf_batch w_env (i_cfg w_a1) w_apart.
+Proof. solve_wf w_dom_a1. Qed.
+Example alias_rename_witness :
+  wf_hist w_env inst_empty [(w_afull, [])] /\ wf_batch w_env (i_cfg w_a1) w_apart /\
+  d_backmap (i_disk w_a1) 0 = Some [(0, 0); (100, 0); (0, 1); (100, 1)] /\
+  d_backmap (i_disk w_a2) 0 = Some [(0, 0); (101, 0); (0, 1); (101, 1)].
+Proof.
+  split; [|split; [|split]].
+  - exact (conj w_awf1 (conj eq_refl I)).
+  - exact w_awf2.
+  - vm_compute. reflexivity.
+  - vm_compute. reflexivity.
+Qed.
 
 (* the stale shard file of the witness is removed by the restarted instance *)
 Example restart_witness_converges :
@@ -314,8 +367,12 @@ Definition erase (h : list (list op * list fpoint)) : list (list op * list fpoin
 
 Lemma wf_batch_ieq : forall e c c' l, clean c -> clean c' -> ieq c c' -> wf_batch e c l -> wf_batch e c' l.
 Proof.
-  intros e c c' l C C' I [S [O R]]. split; auto. split; auto.
-  apply (ready_ieq (apply_ops e c l)); auto. apply ceq_ieq. apply ceq_apply_ops. apply ieq_clean_ceq; auto.
+  intros e c c' l C C' I [S [O [R T]]]. split; auto. split; auto.
+  assert (Q : ceq (apply_ops e c l) (apply_ops e c' l)) by (apply ceq_apply_ops; apply ieq_clean_ceq; auto).
+  split.
+  - apply (ready_ieq (apply_ops e c l)); auto. apply ceq_ieq. exact Q.
+  - destruct Q as [[Qi [Qa _]] [[Qh _] _]]. destruct I as [_ [_ [Ih _]]].
+    intros x bc Hx Hn A hp Hp. rewrite <- Qh, <- Ih. apply (T x bc); auto; congruence.
 Qed.
 
 Lemma erase_follows : forall e, shard_range e -> forall h s s', reach e s -> reach e s' ->
@@ -346,7 +403,8 @@ Proof.
   - intros h. rewrite O4. apply I3.
   - intros h. rewrite O5. apply I3.
   - intros h. rewrite O6. symmetry. apply Er.
-  - intros x bc Hx. apply O7. rewrite I1. exact Hx.
+  - intros x bc Hx Hn. rewrite (bmap_keys_ext _ (h_items (c_h c)) x bc (fun hp _ => eq_sym (I3 (fst hp)))).
+    apply O7; auto. rewrite I1. exact Hx.
   - intros t. rewrite O8. apply I4.
   - intros t. rewrite O9. rewrite (port_tls_ext e _ _ (tport t) I4). rewrite I4. reflexivity.
 Qed.
@@ -447,12 +505,14 @@ Proof.
   assert (SR : shard_range w_env_inline) by (intros x _ _; cbn [sh nsh w_env_inline]; apply N.mod_lt; discriminate).
   assert (W1 : wf_batch w_env_inline (i_cfg inst_empty) w_full2).
   { split; [apply shape_full; reflexivity|]. split; [solve_in|].
-    apply (ready_b_sound w_env_inline); [apply dom_apply_ops; [solve_in|apply dom_empty]|vm_compute; reflexivity]. }
+    split; [apply (ready_b_sound w_env_inline); [apply dom_apply_ops; [solve_in|apply dom_empty]|vm_compute; reflexivity]|
+           apply (tracked_b_sound w_env_inline); [apply dom_apply_ops; [solve_in|apply dom_empty]|vm_compute; reflexivity]]. }
   assert (G1 : good w_env_inline s1).
   { exact (update_good w_env_inline [] inst_empty w_full2 _ SR (reach_empty w_env_inline) W1 eq_refl (update_nofault_eq w_env_inline inst_empty w_full2)). }
   assert (W2 : wf_batch w_env_inline (i_cfg s1) w_part).
   { split; [apply shape_partial; reflexivity|]. split; [solve_in|].
-    apply (ready_b_sound w_env_inline); [apply dom_apply_ops; [solve_in|apply G1]|vm_compute; reflexivity]. }
+    split; [apply (ready_b_sound w_env_inline); [apply dom_apply_ops; [solve_in|apply G1]|vm_compute; reflexivity]|
+           apply (tracked_b_sound w_env_inline); [apply dom_apply_ops; [solve_in|apply G1]|vm_compute; reflexivity]]. }
   destruct (silent_drop_general w_env_inline s1 w_part SR eq_refl G1 W2) as [U [D [Ec [r0 [Hr0 D0]]]]].
   split; [exact SR|]. split; [reflexivity|].
   split; [cbn [wf_hist fst snd]; split; [exact W1|split; [reflexivity|exact I]]|].
